@@ -241,6 +241,64 @@ func FindFlagStores() []FlagStore {
 	return out
 }
 
+// OnXLoop describes one on-X step loop of platform/onx.go: the case arms in which the step's error is
+// bound with `:=` (a new variable that shadows the loop's `err`, so the test after the switch never
+// sees it), and whether `if err != nil { return err }` follows the switch.
+type OnXLoop struct {
+	Func        string
+	Shadows     []string
+	TestedAfter bool
+}
+
+func FindOnXLoops() []OnXLoop {
+	files := ParseDir(filepath.Join(Repo, "platform"))
+	var out []OnXLoop
+	for _, fn := range SortedNames(files) {
+		for _, decl := range files[fn].Decls {
+			fd, ok := decl.(*ast.FuncDecl)
+			if !ok || fd.Body == nil || !strings.HasSuffix(fd.Name.Name, "OnX") {
+				continue
+			}
+			l := OnXLoop{Func: fd.Name.Name}
+			ast.Inspect(fd.Body, func(n ast.Node) bool {
+				fs, ok := n.(*ast.RangeStmt)
+				if !ok {
+					return true
+				}
+				for i, st := range fs.Body.List {
+					sw, ok := st.(*ast.SwitchStmt)
+					if !ok {
+						continue
+					}
+					for _, cc := range sw.Body.List {
+						arm := cc.(*ast.CaseClause)
+						ast.Inspect(arm, func(m ast.Node) bool {
+							as, ok := m.(*ast.AssignStmt)
+							if ok && as.Tok == token.DEFINE {
+								for _, lhs := range as.Lhs {
+									if id, ok := lhs.(*ast.Ident); ok && id.Name == "err" {
+										l.Shadows = append(l.Shadows, nodeSrc(arm.List[0]))
+									}
+								}
+							}
+							return true
+						})
+					}
+					if i+1 < len(fs.Body.List) {
+						if is, ok := fs.Body.List[i+1].(*ast.IfStmt); ok && nodeSrc(is.Cond) == "err != nil" && blockAction(is.Body.List) == "exit" {
+							l.TestedAfter = true
+						}
+					}
+				}
+				return false
+			})
+			out = append(out, l)
+		}
+	}
+	sort.Slice(out, func(i, j int) bool { return out[i].Func < out[j].Func })
+	return out
+}
+
 func c06StrList(xs []string) string {
 	q := make([]string, len(xs))
 	for i, x := range xs {
@@ -278,6 +336,12 @@ func GenC06ReadLoop() string {
 	for _, f := range FindFlagStores() {
 		fs = append(fs, fmt.Sprintf("(%s, %s, %s)", strconv.Quote(f.Func), strconv.Quote(f.Value), strconv.Quote(f.Where)))
 	}
-	b.WriteString("def flagStores : List (String × String × String) := [" + strings.Join(fs, ", ") + "]\n\nend Scrapli.Gen.C06ReadLoop\n")
+	b.WriteString("def flagStores : List (String × String × String) := [" + strings.Join(fs, ", ") + "]\n\n")
+	b.WriteString("/-- platform/onx.go: per on-X step loop, the case arms that bind the step's error with `:=` (shadowing\n    the loop's `err`), and whether `if err != nil { return err }` follows the switch -/\n")
+	var ox []string
+	for _, l := range FindOnXLoops() {
+		ox = append(ox, fmt.Sprintf("(%s, %s, %v)", strconv.Quote(l.Func), c06StrList(l.Shadows), l.TestedAfter))
+	}
+	b.WriteString("def onxLoops : List (String × List String × Bool) := [" + strings.Join(ox, ", ") + "]\n\nend Scrapli.Gen.C06ReadLoop\n")
 	return b.String()
 }
